@@ -314,6 +314,16 @@ def handle : List String → String
         ++ "\t" ++ toString (singleLineSpan src s e)
         ++ "\t" ++ toString (padCount ps.col) ++ ":" ++ toString (caretCount ps.line ps.col pe.line pe.col q.length)
     | _, _, _ => "error\tbad-request"
+  -- several lexers: the outer text, the texts other lexers are created on (and read to the end)
+  -- after the outer lexer reached EOF, then GetLineText of the OUTER lexer at `off`
+  | ["world", h, frags, off, eof] =>
+    match srcOf h, (if frags == "-" then some [] else (frags.splitOn ";").mapM srcOf), off.toNat? with
+    | some outer, some fs, some off =>
+      let w := (templateOps outer fs).foldl World.step []
+      let q := w.quote 0 off (eof == "1")
+      toHexField (utf8s q) ++ "\t" ++ toString (worldQuoteOk outer off q)
+        ++ "\t" ++ toString w.length
+    | _, _, _ => "error\tbad-request"
   | _ => "error\tunknown-request"
 
 end Risor.C20
